@@ -1,11 +1,10 @@
 SPECIFICATION Spec
 CONSTANTS
-  Hays <- MCHays
-  Needles <- MCNeedles
-  AB_H = 8
+  Pairs <- MCPairs
+  AB_H = 10
   AB_N = 5
-  U_H = 4
-  RAW_H = 4
+  U_H = 6
+  RAW_H = 5
   RAW_N = 3
   U_N = 3
 INVARIANTS TypeOK ReadsInBounds Refines ResultInside
